@@ -154,7 +154,9 @@ def run(ctx):
             ks = offsets_sample(rnd, n, 2)
             good = [k for k in ks if not L.ragged(L.BS, n, k)]
             vq = [k for k in ks if L.ragged(L.BS, n, k)][:6] + rnd.sample(good, min(len(good), ctx.budget(5, 9)))
-            gcases.append(dict(tree=t, n=n, vq=vq, allk=list(range(-n + 1, n))))
+            # dense payloads are the slow ones on the implementation side: every offset only in the thorough tier
+            allk = list(range(-n + 1, n)) if ctx.tier == "thorough" else sorted(set(offsets_sample(rnd, n, 30)) - {n, -n})
+            gcases.append(dict(tree=t, n=n, vq=vq, allk=allk))
     # ---- implementation + oracle
     import cola
     nq_oracle = 0
